@@ -388,6 +388,10 @@ theorem genCond_nodup (c : Cond) : ∀ (g : GState) (negate : Bool) (label : Lbl
     intro g negate label
     simp only [genCond, cmpRTest]
     simp [labels_treeLines, branchInstr_nodup]
+  | wcmp ne s w =>
+    intro g negate label
+    simp only [genCond, wcmpTest]
+    split <;> simp [labels_insLines]
   | and a b iha ihb =>
     intro g negate label
     cases negate with
@@ -804,6 +808,25 @@ theorem genCond_targets (c : Cond) : ∀ (g : GState) (negate : Bool) (label : L
     simp only [genCond, cmpRTest] at hl ⊢
     simp [htt, targets, labels_treeLines] at hl ⊢
     exact hb _ _ _ l hl
+  | wcmp ne s w =>
+    intro g negate label l hl
+    have htt : ∀ ops : List (Mn × Option Atom), targets (ops.map fun p => GLine.ins p.1 p.2) = [] := by
+      intro ops
+      induction ops with
+      | nil => rfl
+      | cons x xs ih => simpa [targets] using ih
+    simp only [genCond, wcmpTest] at hl ⊢
+    split at hl
+    · rename_i hf
+      simp only [hf, if_true]
+      simp [htt, targets, labels_insLines] at hl ⊢
+      exact hl
+    · rename_i hf
+      simp only [hf, if_false, Bool.false_eq_true]
+      simp [htt, targets, labels_insLines] at hl ⊢
+      rcases hl with hl | hl
+      · exact Or.inr hl
+      · exact Or.inl hl
   | and a b iha ihb =>
     intro g negate label l hl
     cases negate with
